@@ -113,7 +113,7 @@ Ltac season_hook s :=
 
 
 (* Structure of the call for season k: it equals a loop function F started at Epoch(jde0) with
-   corr = 1.0; F is characterised on fuel 0, on the exit branch, on a failing Sun query and on an iteration. *)
+   corr = 1.0; F is characterised on fuel 0, on the exit branch and on an iteration. *)
 Definition SeasonStructure (D : R -> Prop) (k y : Z) : Prop :=
   exists F : nat -> val R -> val R -> val R -> val R -> val R -> val R -> val R,
     Sun_get_equinox_solstice Rops (VInt y) (VStr (season_name k))
@@ -122,9 +122,6 @@ Definition SeasonStructure (D : R -> Prop) (k y : Z) : Prop :=
     (forall a c e la lo r, F 0%nat a (VFloat c) (epo e) la lo r = VErr OutOfFuel) /\
     (forall n a c e la lo r, Rabs c <= 25 / 10000000 -> D (e - c) ->
        F (S n) a (VFloat c) (epo e) la lo r = epo (e - c)) /\
-    (forall n a c e la lo r x, 25 / 10000000 < Rabs c ->
-       Sun_apparent_geocentric_position Rops (epo e) (VBool true) = VErr x ->
-       F (S n) a (VFloat c) (epo e) la lo r = VErr x) /\
     (* one more iteration: Sun at longitude l, correction 58 sin(k*90 - l), epoch advanced by it *)
     (forall n a c e la lo r l b rr, 25 / 10000000 < Rabs c -> -360 < l < 360 ->
        Sun_apparent_geocentric_position Rops (epo e) (VBool true) = VTuple [ang l; ang b; VFloat rr] ->
@@ -160,11 +157,10 @@ Ltac season_structure :=
     match type of Hc with _ = ?f loop_fuel _ _ _ _ _ _ =>
       exists f; split;
       [ rewrite Hc; clear Hc; repeat f_equal; expose_R; Rlit_norm; lra
-      | clear Hc; split; [ intros; reflexivity | split; [ | split ] ] ]
+      | clear Hc; split; [ intros; reflexivity | split ] ]
     end
   end;
   [ intros n a c e la lo r Hc HDe; unfold epo in *; pyrun2; reflexivity
-  | intros n a c e la lo r x Hc Hs; unfold epo in *; pyrun2; reflexivity
   | intros n a c e la lo r l b rr Hc Hl Hs HDn; do 4 eexists; unfold epo, ang, tol0 in *; pyrun2;
     match goal with
     | |- _ _ _ (VFloat ?c1) _ _ _ _ = _ _ _ (VFloat ?c2) _ _ _ _ => replace c1 with c2 by real_eq
